@@ -92,6 +92,9 @@ def directed_ops(name):
   if name in lifecycle.PAIR_CLASSIFIERS:
     h += [['SetThreshold', 1, 2], ['Query', 1, 6], ['Calibrate', 1, 1, 2], ['Query', 1, 8], ['Fit', 1, 2],
           ['Query', 1, 6], ['SetThreshold', 4, 1], ['Calibrate', 4, 1, 1]]
+  # object 1 (second parameter setting by now, last fitted on the first data set) is fitted on the OTHER data set: nothing
+  # an earlier fit derived from its data (a capped neighbourhood size, a default resolved from the data) may survive
+  h += [['Fit', 1, 2], ['Query', 1, 1], ['Clone', 1], ['Fit', 6, 2], ['Query', 6, 1]]
   return h
 
 
